@@ -158,6 +158,17 @@ where
 		let height = current_height;
 		let parent_key_id = context.parent_key_id.clone();
 		let mut batch = wallet.batch(keychain_mask)?;
+		// a slate is reserved at most once per account: refuse a repeated request
+		if batch.tx_log_iter().any(|t| {
+			t.tx_slate_id == Some(slate_id)
+				&& t.parent_key_id == parent_key_id
+				&& t.tx_type == TxLogEntryType::TxSent
+		}) {
+			return Err(Error::GenericError(format!(
+				"Outputs for transaction {} have already been locked",
+				slate_id
+			)));
+		}
 		let log_id = batch.next_tx_log_id(&parent_key_id)?;
 		let mut t = TxLogEntry::new(parent_key_id.clone(), TxLogEntryType::TxSent, log_id);
 		t.tx_slate_id = Some(slate_id);
@@ -180,7 +191,15 @@ where
 		let mut amount_debited = 0;
 		t.num_inputs = lock_inputs.len();
 		for id in lock_inputs {
-			let mut coin = batch.get(&id.0, &id.1).unwrap();
+			let mut coin = batch.get(&id.0, &id.1)?;
+			// only an output that is still free can be reserved: one that another
+			// pending transaction already holds (or that was spent) must not be taken
+			if coin.status != OutputStatus::Unspent && coin.status != OutputStatus::Unconfirmed {
+				return Err(Error::GenericError(format!(
+					"Output {} is not available for locking (status: {})",
+					coin.key_id, coin.status
+				)));
+			}
 			coin.tx_log_entry = Some(log_id);
 			amount_debited += coin.value;
 			batch.lock_output(&mut coin)?;
